@@ -2,7 +2,7 @@
 #include "hist.hpp"
 #include "tgen.hpp"
 
-enum { K_MARK = 40, K_FLOOD = 41 };   // K_FLOOD a: first id, count (history before the Reset only)   // a: reset sender station, rdst_bcast   — ops before it are h, after it are c
+enum { K_MARK = 40, K_FLOOD = 41, K_ESTORM = 42 };   // K_ESTORM a: number of full-capacity Emits from station 0 (history before the Reset only)   // K_FLOOD a: first id, count (history before the Reset only)   // a: reset sender station, rdst_bcast   — ops before it are h, after it are c
 
 // the continuation c delivered to a never-used instance; per-step digests of the transmit events
 static std::vector<uint64_t> fresh_digests(const Case &c) {
@@ -23,6 +23,13 @@ static std::vector<uint64_t> fresh_digests(const Case &c) {
         if (op.kind == K_ADVANCE) { vp_set_now_ms(vp_now_ms() + (uint64_t)op.arg(0)); continue; }
         if (op.kind == K_SETICON) { w.set_icon(op.blob); continue; }
         if (op.kind == K_MARK) continue;
+        if (op.kind == K_FLOOD) {
+            Mac own = h.ownmac();
+            for (int64_t k = 0; k < std::min<int64_t>(op.arg(1), 3000); k++)
+                (void)w.deliver(F, mk_simple(own, mac_from_u64(0x0600CC000000ULL + (uint64_t)(op.arg(0) + k)), 0, (k & 1) ? OP_PROBE : OP_TRAIN, own, mac_from_u64(0x0600DD000000ULL + (uint64_t)((op.arg(0) + k) % 5)), 0));
+            d.push_back(0);
+            continue;
+        }
         Built b = build_frame(h, op, sc);
         if (!b.is_frame) continue;
         if (b.frame.size() > h.mtu) b.frame.resize(h.mtu);
@@ -62,6 +69,16 @@ static Verdict run(const Case &c) {
         const Op &op = c.ops[i];
         if (op.kind == K_ADVANCE) { vp_set_now_ms(vp_now_ms() + (uint64_t)op.arg(0)); continue; }
         if (op.kind == K_SETICON) { w.set_icon(op.blob); continue; }
+        if (op.kind == K_ESTORM) {   // a long working session: many maximum-size Emits (thousands of frames emitted) - whatever the responder counts, the Reset starts it afresh
+            Mac own = h.ownmac(), m0 = h.st_real(0);
+            std::vector<EmitDesc> d((h.mtu - 34) / 14, EmitDesc{1, 0, own, mac_from_u64(0x0400F0000001ULL)});
+            vp_log_enable(0);
+            for (int64_t k = 0; k < std::min<int64_t>(op.arg(0), 80); k++) (void)w.deliver(P, mk_emit(own, m0, own, m0, (uint16_t)(k + 1), d));
+            vp_log_enable(1);
+            (void)drain_log();
+            if (sh.active < 0) { sh.active = 0; sh.bridged = false; }
+            continue;
+        }
         if (op.kind == K_FLOOD) {   // a flood of pairwise distinct Probe/Train frames and no Query: whatever limit the responder hits, the Reset clears that too
             Mac own = h.ownmac();
             for (int64_t k = 0; k < std::min<int64_t>(op.arg(1), 3000); k++)
@@ -93,6 +110,15 @@ static Verdict run(const Case &c) {
         if (op.kind == K_ADVANCE) { vp_set_now_ms(vp_now_ms() + (uint64_t)op.arg(0)); continue; }
         if (op.kind == K_SETICON) { w.set_icon(op.blob); continue; }
         if (op.kind == K_MARK) continue;
+        if (op.kind == K_FLOOD) {   // after the Reset as well: both instances see the same flood (what they retained shows in the Queries that follow)
+            Mac own = h.ownmac();
+            for (int64_t k = 0; k < std::min<int64_t>(op.arg(1), 3000); k++) {
+                Bytes f = mk_simple(own, mac_from_u64(0x0600CC000000ULL + (uint64_t)(op.arg(0) + k)), 0, (k & 1) ? OP_PROBE : OP_TRAIN, own, mac_from_u64(0x0600DD000000ULL + (uint64_t)((op.arg(0) + k) % 5)), 0);
+                (void)w.deliver(P, f); (void)w.deliver(F, f);
+            }
+            post_reset.push_back(0);
+            continue;
+        }
         Built b = build_frame(h, op, sc);
         if (!b.is_frame) continue;
         if (b.frame.size() > h.mtu) b.frame.resize(h.mtu);
@@ -144,6 +170,7 @@ int main(int argc, char **argv) {
         Case c; h.to_case(c);
         c.ops = *hg::ops_gen(wh, 0, 60);
         if (*gx::chance(6)) { Op f; f.kind = K_FLOOD; f.a = {*gx::range<int64_t>(0, 100000), *gx::pick({1023, 1024, 1025, 1026, 1100, 2100})}; c.ops.insert(c.ops.begin() + *gx::range<int>(0, (int)c.ops.size()), f); }
+        if (*gx::chance(3)) { Op es; es.kind = K_ESTORM; es.a = {*gx::pick({20, 25, 60, 80})}; c.ops.insert(c.ops.begin() + *gx::range<int>(0, (int)c.ops.size()), es); }
         Op m; m.kind = K_MARK; m.a = {*gx::range<int64_t>(0, 3), *gx::pick({0, 1}), *gx::pick({0, 1, 0xFFFF})};
         c.ops.push_back(m);
         // leftovers probes first, in generated order
@@ -159,6 +186,12 @@ int main(int argc, char **argv) {
         c.ops.insert(c.ops.end(), probes.begin(), probes.end());
         auto tail = *hg::ops_gen(wc, 0, 30);
         c.ops.insert(c.ops.end(), tail.begin(), tail.end());
+        if (*gx::chance(3)) {   // a flood after the Reset, then the mapper drains it
+            Op f; f.kind = K_FLOOD; f.a = {*gx::range<int64_t>(200000, 300000), *gx::pick({1024, 1025, 1030, 1100})};
+            c.ops.push_back(f);
+            int nq = (int)(1100 / ((h.mtu - 34) / 20)) + 3;
+            for (int q = 0; q < nq; q++) { Op o; o.kind = K_QUERY; o.a = {0, 300 + q}; c.ops.push_back(o); }
+        }
         return c;
     });
     bool ok = run_cases(a, ev, "c09-pairs", a.n(60000, 800000), 100, gen, run);
